@@ -873,6 +873,9 @@ func (ex *Exec) specCall(call *ast.CallExpr, info *types.Info, env *SpecEnv, pc 
 		i := SignExtTo64(arg(0).(IntV).T, info.Types[call.Args[0]].Type)
 		t := info.Instances[id].TypeArgs.At(0)
 		return PtrV{Kind: PHeap, Ref: Select(env.st.get(chanLogKey(k, t)+"val", SArr(SBV(64), SRef)), i), Root: t.Underlying().(*types.Pointer).Elem()}
+	case "sinkctx":
+		// sinkctx(): the context passed to the last call of a `sink` function field
+		return IfaceV{env.st.get("ctxmeta|sinkctx.tag", SBV(16)), env.st.get("ctxmeta|sinkctx.pay", SBV(64))}
 	case "ctxtimeout":
 		// ctxtimeout(ctx): the duration ctx was created with by context.WithTimeout
 		iv := arg(0).(IfaceV)
